@@ -798,3 +798,129 @@ func (c *Ctx) httpErrors(fn *ssa.Function) []httpErr {
 	}
 	return out
 }
+
+// fieldStore: a store into <base>.<outer>.<field> made by fn itself or by a first-party helper fn
+// calls statically with the base as an argument; val and up() are expressed in fn's frame.
+type fieldStore struct {
+	field string
+	val   ssa.Value       // stored value, helper parameters replaced by the call's arguments
+	at    ssa.Instruction // instruction of fn at which the store happens (the store, or the helper call)
+	store *ssa.Store
+	up    func(ssa.Value) ssa.Value // maps a value of the storing function into fn's frame (parameters only)
+}
+
+// nestedFieldStores lists stores to X.<outer>.<f> for every f, in fn and (depth 1) in helpers that
+// receive X; isBase decides whether a value of fn is the base object X (nil: any base).
+func (c *Ctx) nestedFieldStores(fn *ssa.Function, outer string, isBase func(ssa.Value) bool) map[string][]fieldStore {
+	out := map[string][]fieldStore{}
+	scan := func(f *ssa.Function, at func(*ssa.Store) ssa.Instruction, up func(ssa.Value) ssa.Value, baseOK func(ssa.Value) bool) {
+		eachInstr(f, func(in ssa.Instruction) {
+			st, ok := in.(*ssa.Store)
+			if !ok {
+				return
+			}
+			b, fld, ok := fieldOfAddr(st.Addr)
+			if !ok {
+				return
+			}
+			bb, pf, ok2 := fieldOfAddr(b)
+			if !ok2 || pf.Name() != outer {
+				return
+			}
+			if baseOK != nil && !baseOK(bb) {
+				return
+			}
+			out[fld.Name()] = append(out[fld.Name()], fieldStore{fld.Name(), up(st.Val), at(st), st, up})
+		})
+	}
+	ident := func(v ssa.Value) ssa.Value { return v }
+	scan(fn, func(st *ssa.Store) ssa.Instruction { return st }, ident, isBase)
+	for _, ci := range callsIn(fn) {
+		call, ok := ci.(*ssa.Call)
+		if !ok {
+			continue
+		}
+		h := call.Call.StaticCallee()
+		if h == nil || !IsFirstParty(h) || h.Blocks == nil || h == fn {
+			continue
+		}
+		up := func(v ssa.Value) ssa.Value {
+			if p, ok := strip(v).(*ssa.Parameter); ok {
+				for i, q := range h.Params {
+					if q == p && i < len(call.Call.Args) {
+						return call.Call.Args[i]
+					}
+				}
+			}
+			return v
+		}
+		var baseOK func(ssa.Value) bool
+		if isBase != nil {
+			baseOK = func(v ssa.Value) bool { return isBase(up(v)) }
+		} else {
+			baseOK = func(v ssa.Value) bool { _, isP := strip(v).(*ssa.Parameter); return isP }
+		}
+		scan(h, func(*ssa.Store) ssa.Instruction { return call }, up, baseOK)
+	}
+	return out
+}
+
+// fieldPathUp: fieldPath with the root mapped into the caller's frame.
+func fieldPathUp(v ssa.Value, up func(ssa.Value) ssa.Value) (ssa.Value, []string) {
+	root, path := fieldPath(v)
+	if root != nil && up != nil {
+		root = strip(up(root))
+	}
+	return root, path
+}
+
+// sameStruct: the struct a field is read from (b: an address chain) is the local `want`, or a
+// local copy of the value a first-party helper returned, which on every return is the content of
+// `want` (a claims struct filled and handed back by a verifying helper).
+func (c *Ctx) sameStruct(b ssa.Value, want *ssa.Alloc) bool {
+	a := baseAlloc(b)
+	if a == nil || want == nil {
+		return false
+	}
+	if a == want {
+		return true
+	}
+	var val ssa.Value
+	n := 0
+	for _, r := range *a.Referrers() {
+		if st, ok := r.(*ssa.Store); ok && st.Addr == ssa.Value(a) {
+			val = st.Val
+			n++
+		}
+	}
+	if n != 1 {
+		return false
+	}
+	down := strip(c.downValue(val, 0))
+	if la, ok := loadAddr(down); ok && la == ssa.Value(want) {
+		return true
+	}
+	// each return of the helper loads the struct afresh: compare per return
+	ex, ok := strip(val).(*ssa.Extract)
+	if !ok {
+		return false
+	}
+	call, ok := ex.Tuple.(*ssa.Call)
+	if !ok {
+		return false
+	}
+	h := call.Call.StaticCallee()
+	if h == nil || !IsFirstParty(h) || h.Blocks == nil || want.Parent() != h {
+		return false
+	}
+	rets := returnsOf(h)
+	for _, r := range rets {
+		if ex.Index >= len(r.Results) {
+			return false
+		}
+		if la, ok := loadAddr(strip(unspill(r.Results[ex.Index]))); !ok || la != ssa.Value(want) {
+			return false
+		}
+	}
+	return len(rets) > 0
+}
